@@ -1,4 +1,5 @@
 import PcfgVerif.Properties.ProbsCore
+import PcfgVerif.Lemmas.SoftFloatLemmas
 /-!
 # C06 — the saved grammar is the relative-frequency model of the segmentation
 
@@ -45,5 +46,34 @@ theorem C06_markov_edges (O : QOps Q) (sub : Q → Q → Q) (one : Q) (isOne isZ
     (isOne coverage = false → isZero coverage = true →
       withMarkov O sub one isOne isZero mKey coverage n items = [(mKey, one)]) :=
   withMarkov_edges O sub one isOne isZero mKey coverage n items
+
+/-- `calculate_probabilities` over binary64: counts are naturals, `count / total` is the correctly rounded
+quotient `SF.ratio` (the model of CPython's `/`, compared bit for bit on every run by the `fp.ratio` stream) -/
+def sfQOps : QOps Nat := ⟨0, (· + ·), SF.ratio, fun a b => decide (a ≥ b)⟩
+
+/-- **binary64 instance**: the doubles written to a list file are non-increasing in file order — rounding
+`count / total` to 53 bits never inverts the order of two counts (`SF.ratio_mono`).  This is the
+"group probabilities non-increasing in file order" half of the well-formedness that C01/C02/C08 assume
+of a ruleset, established for what the trainer writes.  The divisor is arbitrary (second statement), so the
+base-structure list, whose total contains the fractional Markov pseudo-count, is covered as well. -/
+theorem C06_sorted_binary64 (items : List (α × Nat)) :
+    (calcProbs sfQOps items).Pairwise fun a b => b.2 ≤ a.2 := by
+  unfold calcProbs
+  simp only
+  rw [List.pairwise_map]
+  have hs := mostCommon_sorted sfQOps (by intro a b; simp [sfQOps]; omega)
+    (by intro a b c h1 h2; simp [sfQOps] at *; omega) items
+  exact hs.imp (fun {a b} h => SF.ratio_mono _ (by simpa [sfQOps] using h))
+
+theorem C06_sorted_binary64_any_total (total : Nat) (items : List (α × Nat)) :
+    ((mostCommon sfQOps items).map fun it => (it.1, SF.ratio it.2 total)).Pairwise fun a b => b.2 ≤ a.2 := by
+  rw [List.pairwise_map]
+  have hs := mostCommon_sorted sfQOps (by intro a b; simp [sfQOps]; omega)
+    (by intro a b c h1 h2; simp [sfQOps] at *; omega) items
+  exact hs.imp (fun {a b} h => SF.ratio_mono _ (by simpa [sfQOps] using h))
+
+/-- three quotients as CPython computes them (tests, labelled as such): `1/3`, `2/3`, `1/10` -/
+example : SF.toBits (SF.ratio 1 3) = 0x3FD5555555555555 ∧ SF.toBits (SF.ratio 2 3) = 0x3FE5555555555555 ∧
+    SF.toBits (SF.ratio 1 10) = 0x3FB999999999999A := by decide +kernel
 
 end Pcfg.C06
